@@ -4,11 +4,21 @@ From OlaBase Require Import Bytes.
 From C12 Require Import Gen Model ProofsF ProofsA.
 Local Open Scope N_scope.
 
-Definition tagged (i : N) (p : list N) : Prop := exists d, p = i :: d.
+Definition tagged (i : N) (p : list N) : Prop := p = [] \/ exists d, p = i :: d.
+Definition ptag (i : N) (r : resp) : Prop := tagged i (rs_data r).
 
-Definition resp_ok (i : N) (rs : resp) (parts : list (list N)) : Prop :=
-  rs_data rs = concat parts /\ Forall (tagged i) parts /\ parts <> [] /\
-  ((2 <= length parts)%nat -> len (rs_data rs) <= MAX_OVERFLOW_SIZE /\ rs_type rs = RDM_ACK).
+(* what CombineResponses keeps of the parts: source UID and command class (equal in all parts), the
+   PID of the first part, the message count of the last part *)
+Definition meta_ok (rs : resp) (parts : list resp) : Prop :=
+  Forall (fun r => rs_src r = rs_src rs /\ rs_cc r = rs_cc rs) parts /\
+  (forall f, hd_error parts = Some f -> rs_pid rs = rs_pid f) /\
+  (forall l, hd_error (rev parts) = Some l -> rs_mc rs = rs_mc l).
+
+Definition resp_ok (i : N) (rs : resp) (parts : list resp) : Prop :=
+  rs_data rs = concat (map rs_data parts) /\ Forall (ptag i) parts /\ parts <> [] /\ meta_ok rs parts /\
+  ((2 <= length parts)%nat ->
+   len (rs_data rs) <= MAX_OVERFLOW_SIZE /\ rs_type rs = RDM_ACK /\
+   (rs_cc rs = GET_COMMAND_RESPONSE \/ rs_cc rs = SET_COMMAND_RESPONSE)).
 
 Definition comp_ok (c : comp) : Prop :=
   c_kind c = K_ANSWERED ->
@@ -33,22 +43,27 @@ Proof.
 Qed.
 
 Lemma combine_some a b c : combine a b = Some c ->
-  rs_data c = rs_data a ++ rs_data b /\ len (rs_data c) <= MAX_OVERFLOW_SIZE /\ rs_type c = RDM_ACK.
+  rs_data c = rs_data a ++ rs_data b /\ len (rs_data c) <= MAX_OVERFLOW_SIZE /\ rs_type c = RDM_ACK /\
+  rs_src c = rs_src a /\ rs_src b = rs_src a /\ rs_cc c = rs_cc a /\ rs_cc b = rs_cc a /\
+  rs_pid c = rs_pid a /\ rs_mc c = rs_mc b /\
+  (rs_cc c = GET_COMMAND_RESPONSE \/ rs_cc c = SET_COMMAND_RESPONSE).
 Proof.
   unfold combine. intros H.
   destruct (MAX_OVERFLOW_SIZE <? len (rs_data a) + len (rs_data b)) eqn:E; [discriminate|].
   apply N.ltb_ge in E.
-  destruct (negb (rs_src a =? rs_src b)); [discriminate|].
-  destruct ((rs_cc a =? GET_COMMAND_RESPONSE) && (rs_cc b =? GET_COMMAND_RESPONSE)).
-  - inversion H; subst; cbn. rewrite len_app. auto.
-  - destruct ((rs_cc a =? SET_COMMAND_RESPONSE) && (rs_cc b =? SET_COMMAND_RESPONSE)); [|discriminate].
-    inversion H; subst; cbn. rewrite len_app. auto.
+  destruct (rs_src a =? rs_src b) eqn:Es; cbn [negb] in H; [|discriminate]. apply N.eqb_eq in Es.
+  destruct ((rs_cc a =? GET_COMMAND_RESPONSE) && (rs_cc b =? GET_COMMAND_RESPONSE)) eqn:Eg.
+  - apply andb_prop in Eg. destruct Eg as [Ea Eb]. apply N.eqb_eq in Ea, Eb.
+    inversion H; subst; cbn. rewrite len_app. repeat split; auto; congruence.
+  - destruct ((rs_cc a =? SET_COMMAND_RESPONSE) && (rs_cc b =? SET_COMMAND_RESPONSE)) eqn:Eg2; [|discriminate].
+    apply andb_prop in Eg2. destruct Eg2 as [Ea Eb]. apply N.eqb_eq in Ea, Eb.
+    inversion H; subst; cbn. rewrite len_app. repeat split; auto; congruence.
 Qed.
 
 Lemma tag_resp i r rs : r_resp (tag i r) = Some rs -> tagged i (rs_data rs).
 Proof.
-  unfold tag. destruct (r_resp r) as [rs0|] eqn:E; cbn; intros H.
-  - inversion H; subst; cbn. eexists; reflexivity.
+  unfold tag, tagged. destruct (r_resp r) as [rs0|] eqn:E; cbn; intros H.
+  - inversion H; subst; cbn. destruct (rs_data rs0); [left; reflexivity|right; eexists; reflexivity].
   - rewrite E in H. discriminate.
 Qed.
 
@@ -58,6 +73,37 @@ Lemma snoc_nonnil {A} (l : list A) x : l ++ [x] <> [].
 Proof. destruct l; cbn; congruence. Qed.
 Lemma forall_snoc {A} (P : A -> Prop) l x : Forall P l -> P x -> Forall P (l ++ [x]).
 Proof. intros. apply Forall_app; split; auto. Qed.
+
+Lemma resp_ok_single i rs : tagged i (rs_data rs) -> resp_ok i rs [rs].
+Proof.
+  intros Ht. unfold resp_ok, meta_ok. cbn. rewrite app_nil_r.
+  split; [reflexivity|]. split; [constructor; [exact Ht|constructor]|]. split; [discriminate|].
+  split.
+  - split; [constructor; [split; reflexivity|constructor]|].
+    split; intros x Hx; inversion Hx; subst; reflexivity.
+  - intros; lia.
+Qed.
+
+Lemma resp_ok_snoc i acc rs c parts :
+  resp_ok i acc parts -> combine acc rs = Some c -> tagged i (rs_data rs) -> resp_ok i c (parts ++ [rs]).
+Proof.
+  intros (Hdat & Htag & Hnn & (Hall & Hpid & Hmc) & _) Hc Ht.
+  apply combine_some in Hc.
+  destruct Hc as (Ecd & Ecl & Ect & Esc & Esb & Ecc & Ecb & Epid & Emc & Eget).
+  unfold resp_ok, meta_ok. rewrite map_app, concat_app. cbn. rewrite app_nil_r.
+  split; [rewrite Ecd, Hdat; reflexivity|].
+  split; [apply forall_snoc; [exact Htag|exact Ht]|].
+  split; [apply snoc_nonnil|].
+  split.
+  - split.
+    + apply forall_snoc.
+      * eapply Forall_impl; [|exact Hall]. cbn. intros r [H1 H2]. split; congruence.
+      * split; congruence.
+    + split.
+      * intros f Hf. destruct parts as [|p parts]; [congruence|]. cbn in Hf. rewrite Epid. apply Hpid. exact Hf.
+      * intros l Hl. rewrite rev_app_distr in Hl. cbn in Hl. inversion Hl; subst. exact Emc.
+  - intros _. auto.
+Qed.
 
 (* RunCallback from a state whose accumulator has been cleared *)
 Lemma run_callback_D rep parts fr s ag s' ag' i cb rest :
@@ -83,7 +129,7 @@ Proof.
   rewrite R0, P0, F0 in H.
   destruct (s_resp s) as [acc|] eqn:Er.
   - (* inside a sequence *)
-    destruct Hresp as (i0 & cb0 & rest0 & Hq0 & (Hdat & Htag & Hnn & Hlen) & Hfr & Hfn).
+    destruct Hresp as (i0 & cb0 & rest0 & Hq0 & Hacc & Hfr & Hfn).
     rewrite Hq in Hq0. inversion Hq0; subst i0 cb0 rest0. clear Hq0.
     assert (Hfr' : Forall (fun x => x = i) (g_from s ++ [i])) by (apply forall_snoc; auto).
     destruct (if r_status (tag i r) =? RDM_COMPLETED_OK then r_resp (tag i r) else None) as [rs|] eqn:Ers.
@@ -91,11 +137,8 @@ Proof.
       { destruct (r_status (tag i r) =? RDM_COMPLETED_OK); [exact Ers|discriminate]. }
       apply tag_resp in Hrs.
       destruct (combine acc rs) as [c|] eqn:Ec.
-      * apply combine_some in Ec. destruct Ec as (Ecd & Ecl & Ect).
-        assert (Hok : resp_ok i c (g_parts s ++ [rs_data rs])).
-        { unfold resp_ok. rewrite concat_snoc, Ecd, Hdat.
-          split; [reflexivity|]. split; [apply forall_snoc; auto|]. split; [apply snoc_nonnil|].
-          intros _. split; auto. rewrite <- Hdat, <- Ecd. exact Ecl. }
+      * assert (Hok : resp_ok i c (g_parts s ++ [rs])).
+        { eapply resp_ok_snoc; [exact Hacc|exact Ec|exact Hrs]. }
         destruct (negb (rs_type rs =? ACK_OVERFLOW)).
         -- eapply run_callback_D; [| | | | |  |exact H]; cbn; auto.
            ++ rewrite D0; exact Hdone.
@@ -118,9 +161,7 @@ Proof.
     + assert (Hrs : r_resp (tag i r) = Some rs).
       { destruct (r_status (tag i r) =? RDM_COMPLETED_OK); [exact Ers|discriminate]. }
       pose proof (tag_resp _ _ _ Hrs) as Htg.
-      assert (Hok : resp_ok i rs [rs_data rs]).
-      { unfold resp_ok. cbn. rewrite app_nil_r. split; [reflexivity|]. split; [constructor; auto|].
-        split; [discriminate|]. intros; lia. }
+      assert (Hok : resp_ok i rs [rs]) by (apply resp_ok_single; exact Htg).
       destruct (rs_type rs =? ACK_OVERFLOW).
       * apply continue_overflow_kf in H. eapply DI_frame; [exact H|].
         unfold DI. cbn. rewrite D0. split; [exact Hdone|].
@@ -131,9 +172,7 @@ Proof.
     + eapply run_callback_D; [rewrite D0; exact Hdone|congruence|congruence|congruence|exact Q0| |exact H].
       unfold comp_ok; cbn. intros _. split; [discriminate|]. split; [constructor; auto|].
         destruct (r_resp (tag i r)) as [rs|] eqn:Hrs; [|exact I].
-        pose proof (tag_resp _ _ _ Hrs) as Htg.
-        unfold resp_ok. cbn. rewrite app_nil_r. split; [reflexivity|]. split; [constructor; auto|].
-        split; [discriminate|]. intros; lia.
+        apply resp_ok_single. exact (tag_resp _ _ _ Hrs).
 Qed.
 
 Lemma comp_ok_rejected id r : comp_ok (mkComp id K_REJECTED r [] []).
